@@ -3,10 +3,10 @@
    (instance QS) and what the property theorems quantify over (instance RS). *)
 From Coq Require Import ZArith List Bool.
 Import ListNotations.
-From Manif Require Import Scalar Mat Consts Group SO2 SE2 SO3 SE3 SE23 SGal3 Rn Generic Api Algorithms Hist Ctor.
+From Manif Require Import Scalar Mat Consts Group SO2 SE2 SO3 SE3 SE23 SGal3 Rn Generic Api Algorithms Hist Ctor Bundle.
 
 Inductive gid : Type :=
-| GSO2 | GSE2 | GSO3 | GSE3 | GSE23 | GSGal3 | GRn (n : nat).
+| GSO2 | GSE2 | GSO3 | GSE3 | GSE23 | GSGal3 | GRn (n : nat) | GBundle (l : list gid).
 
 Inductive opcode : Type :=
 | OInverse | OLog | OCompose | OAct | OAdj | ORplus | OLplus | OPlus | ORminus | OLminus | OMinus
@@ -31,12 +31,13 @@ Fixpoint group_of (g : gid) : GroupOps F :=
   | GSE23 => SE23 F eps
   | GSGal3 => SGal3 F eps
   | GRn n => Rn F n
+  | GBundle l => Bundle (map group_of l)
   end.
 
 Definition cast_of (g : gid) : vec -> vec :=
   match g with
   | GSO2 => so2_cast F | GSE2 => se2_cast F | GSO3 => so3_cast F | GSE3 => se3_cast F
-  | GSE23 => se23_cast F | GSGal3 => sg_cast F | GRn _ => fun c => c
+  | GSE23 => se23_cast F | GSGal3 => sg_cast F | GRn _ => fun c => c | GBundle _ => fun c => c
   end.
 
 Definition mflat (m : mat) : vec := concat m.
@@ -145,7 +146,7 @@ Definition run_op (g : gid) (op : opcode) (mask : list bool) (iarg : Z) (args : 
       match (match g with
              | GSO2 => so2_ctor iarg args | GSE2 => se2_ctor iarg args | GSO3 => so3_ctor iarg args
              | GSE3 => se3_ctor iarg args | GSE23 => se23_ctor iarg args | GSGal3 => sg_ctor iarg args
-             | GRn _ => if Z.eqb iarg 0 then Some a0 else None end) with
+             | GRn _ | GBundle _ => if Z.eqb iarg 0 then Some a0 else None end) with
       | Some c => rmap fin (checked G m0 c)
       | None => LogicError
       end
